@@ -130,6 +130,10 @@ REAL_ALGS = [
     "formatter_tree",
     "apply_geometry_lowering",
     "apply_restrictions_default",
+    "grad_expand",
+    "grad_expand",
+    "gateaux_expand",
+    "ufl2unicode",
 ]
 FAULT_FILES = ["corealg/multifunction.py", "algorithms/transformer.py"]
 
@@ -176,6 +180,7 @@ class C20(Scenario):
             "applyreal": 2 if arm != "real-algs" else 6,
             "regrule": 1,
             "dropalg": 0.7,
+            "regdrule": 0.6 if arm != "real-algs" else 2,
             "mkreal": 1 if arm != "real-algs" else 3,
             "applyinst": 1 if arm != "real-algs" else 7,
         }
@@ -219,7 +224,7 @@ class C20(Scenario):
             # UFL's own algorithms have been used in this process before any type is
             # registered (module-level tables filled on first use)
             for _ in range(rng.randint(2, 7)):
-                alg = rng.choice(REAL_ALGS) if rng.random() < 0.5 else rng.choice(["apply_algebra_lowering", "expand_derivatives", "estimate_degree", "apply_geometry_lowering", "remove_complex_nodes"])
+                alg = rng.choice(REAL_ALGS) if rng.random() < 0.5 else rng.choice(["apply_algebra_lowering", "grad_expand", "gateaux_expand", "estimate_degree", "apply_geometry_lowering", "remove_complex_nodes"])
                 units.append({"n": 0, "k": "applyreal", "op": ["applyreal", None, alg, rng.choice(KIT_ALL + [21, 22])]})
             n_target += len(units)
         while len(units) < n_target:
@@ -367,13 +372,18 @@ class C20(Scenario):
                 kinds_ = {t[4] for t in types for e_ in exprs if e_[0] == e and t[0] in e_[1]}
                 if any(k_.startswith("cmp:") for k_ in kinds_) and rng.random() < 0.6:
                     # a late type that inherits a rule of the compound-algebra / derivative passes
-                    alg = rng.choice(["apply_algebra_lowering", "apply_algebra_lowering", "expand_derivatives", "estimate_degree"])
+                    alg = rng.choice(["apply_algebra_lowering", "apply_algebra_lowering", "grad_expand", "gateaux_expand", "estimate_degree"])
                 elif "geo" in kinds_ and rng.random() < 0.5:
                     alg = "apply_geometry_lowering"
                 elif rng.random() < 0.4:
                     # the passes every form goes through on its way to a form compiler
-                    alg = rng.choice(["apply_algebra_lowering", "expand_derivatives", "estimate_degree", "remove_complex_nodes", "renumber_indices", "apply_geometry_lowering"])
+                    alg = rng.choice(["apply_algebra_lowering", "grad_expand", "gateaux_expand", "estimate_degree", "remove_complex_nodes", "renumber_indices", "apply_geometry_lowering"])
                 units.append({"n": 0, "k": "applyreal", "op": ["applyreal", None, alg, e]})
+            elif k == "regdrule":
+                cand = [t for t in types if (t[4] in ("op", "math") or t[4] in ("cmp:Sin", "cmp:Sqrt", "cmp:Conj", "cmp:Trace", "cmp:Sym", "cmp:Transposed", "cmp:Div", "cmp:Grad")) and not t[3]]
+                if not cand:
+                    continue
+                units.append({"n": 0, "k": "regdrule", "op": ["regdrule", None, ["$", rng.choice(cand)[0]]]})
             elif k == "dropalg":
                 # an algorithm class and its instances go away (short-lived, locally defined
                 # classes are common); later classes may be allocated at the same address
